@@ -4,6 +4,9 @@ import struct
 # Shift-JIS encoded strings that encoding_rs round-trips losslessly (checked by harness kind `sjis`)
 ASCII_STRS = [b"A", b"AB", b"", b"a b", b"~", b"\\", b"Count", b"Info", b"MID_H", b"x" * 9]
 KANA_STRS = [bytes.fromhex("82a0"), bytes.fromhex("835c"), bytes.fromhex("b1"), bytes.fromhex("82a082a2")]
+# codec edge strings (seeds C17-8 / C18-8; all lossless, checked with harness kind `sjdec`): half-width katakana whose bytes are also valid
+# UTF-8 (d0bd, c3b1) or not (cadfca), and wave-dash-class code points U+FF5E, U+FF0D, U+FFE2, U+2225
+KANA_STRS += [bytes.fromhex(h) for h in ("d0bd", "c3b1", "cadfca", "8160", "817c", "81ca", "8161")]
 KANJI_STRS = [bytes.fromhex("8abf8e9a"), bytes.fromhex("8140")]
 # names whose Shift-JIS byte order differs from their String (code point) order - the order BinArchive::serialize uses for
 # big-endian label tables: Greek alpha 83 BF (U+03B1) vs hiragana 82 A0 (U+3042), prolonged sound mark 81 5B (U+30FC),
